@@ -39,6 +39,8 @@ T = [
     ("imm.lbl+1", "LDD", "#{L}+1", "ins", None),
     ("pcr.lbl+2", "LEAY", "{L}+2,PCR", "ins", None),
     ("pcr.lbl-1.ind", "LDA", "[{L}-1,PCR]", "ins", None),
+    ("pcr.lbl-3", "LEAX", "{L}-3,PCR", "ins", None),
+    ("bra.lbl-2", "BNE", "{L}-2", "ins", None),
     ("idx.lbl+1", "LDA", "{L}+1,S", "ins", None),
     ("extind.lbl+1", "JMP", "[{L}+1]", "ins", None),
     ("bra.lbl+1", "BEQ", "{L}+1", "ins", None),
@@ -106,6 +108,7 @@ T = [
     ("org100", "ORG", "$100", "org", 0x100),
     ("org0E00", "ORG", "$0E00", "org", 0x0E00),
     ("orgFFF0", "ORG", "$FFF0", "org", 0xFFF0),
+    ("org.lbl", "ORG", "{L}", "org", None),
     ("setdp", "SETDP", "0", "none", None),
     ("nam", "NAM", "TEST", "none", None),
     ("end", "END", "", "none", None),
@@ -115,7 +118,7 @@ T = [
 TAGS = {t[0]: t for t in T}
 CORE = ["inh1", "inh.swi", "imm8", "imm16.p", "dir", "ext", "ext.lbl", "imm.lbl", "idx.off5", "idx.off8n", "idx.off16",
         "idx.off8.r16", "idx.lbl", "ind.lbl", "extind.lbl", "pcr.lbl", "pcr.lbl.ind", "bra", "lbne", "fcb3", "fcc11", "rmb7", "equ8", "equ16",
-        "org10", "org0E00", "end"]
+        "org10", "org0E00", "org.lbl", "end"]
 
 
 def label_options(seq_tags, i):
